@@ -119,7 +119,7 @@ Lemma same_tree_sort : forall t t', same_tree t t' -> wf_treeb t = true -> sort_
 Proof.
   induction t as [c m mt|tg mt|m mt ch IH] using tree_ind'; intros t' Hst Hwf; inversion Hst; subst; try reflexivity.
   rename ch' into ch1, ch'' into ch2. rewrite !sort_tree_dir. f_equal.
-  simpl in Hwf. apply andb_true_iff in Hwf as [Hnd Hwf].
+  simpl in Hwf. apply andb_true_iff in Hwf as [Hnd Hwf]. apply andb_true_iff in Hnd as [Hnd Hnok].
   assert (Hmap : map sortg ch = map sortg ch1).
   { clear - IH H3 Hwf. induction H3 as [|a b0 l l' [Hab Hs] HF IHF]; [reflexivity|].
     inversion IH as [|? ? IHa IHl]; subst. simpl in Hwf. apply andb_true_iff in Hwf as [Hwa Hwl].
